@@ -90,7 +90,7 @@ func VerifC10_Dispatch() {
 		verifrt.Cover("rollback-in-batches")
 		post := *c.NewStatus.GetSubStatus()
 		verifrt.Assert(err == nil && post.CurrentStepIndex == 1 && post.CurrentStepState == v1beta1.CanaryStepStateInit, "C10.rollbackInBatches.restartsAtStepOne")
-		verifrt.Assert(post.NextStepIndex == util.NextBatchIndex(r, 1), "C10.rollbackInBatches.nextStepFollowsStepOne")
+		verifrt.Assert(post.NextStepIndex == vNextStep(r, 1), "C10.rollbackInBatches.nextStepFollowsStepOne")
 		verifrt.Assert(len(calls.names) == 0 && runs == 0, "C10.rollbackInBatches.noCollaborator")
 	case superseded:
 		verifrt.Cover("superseded")
